@@ -87,14 +87,14 @@ def generate(seed, tier="quick"):
     for c in cuts:
         splits.append({"cuts": [c], "transport": [o.choice(["asis", "pickle", "numpy"])],
                        "ckpt": [_ckpt(o, c), _ckpt(o, N - c)], "jit": [o.random() < 0.2, o.random() < 0.2],
-                       "persist": o.choice([None, None, None, "pickle", "deepcopy"])})
+                       "persist": o.choice([None, None, None, "pickle", "deepcopy"]), "reuse_checkpoint": o.random() < 0.4})
     for _ in range(1 if tier == "quick" else 3):
         k = o.randint(2, min(3, N - 1)) if N > 2 else 1
         cs = sorted(o.sample(range(1, N), k)) if N - 1 >= k else [1]
         segs = [b - a for a, b in zip([0] + cs, cs + [N])]
         splits.append({"cuts": cs, "transport": [o.choice(["asis", "pickle", "numpy"]) for _ in cs],
                        "ckpt": [_ckpt(o, s) for s in segs], "jit": [o.random() < 0.2 for _ in segs],
-                       "persist": o.choice([None, None, "pickle", "deepcopy"])})
+                       "persist": o.choice([None, None, "pickle", "deepcopy"]), "reuse_checkpoint": o.random() < 0.4})
     return {"prop": PROPERTY, "shape": shape, "ops": ops, "N": N, "dt": o.choice(DTS), "feed": mode, "stims": stims, "clamp": clamp,
             "solver": o.choice(["bwd_euler", "bwd_euler", "crank_nicolson"]),
             "vsolver": o.choice(["jaxley.stone", "jaxley.thomas", "jax.sparse"]),
@@ -333,6 +333,22 @@ def execute(program):
                 break
             if ckpt is not None and math.prod(ckpt) > (b - a):
                 w.bump("probe_ckpt_prod_gt_steps")
+            if states is not None and sp.get("reuse_checkpoint") and not jit:
+                # the same checkpoint (all_states object) is used for a second continuation: integrate must not have
+                # modified it, so the second continuation is bit-identical to the first
+                try:
+                    recs_again, _ = run(m, a, b, ckpt=ckpt, jit=False, states=states)
+                except Exception as e:  # noqa: BLE001
+                    if exc_in_harness(e):
+                        raise HarnessError(f"segment: {type(e).__name__}: {e}") from e
+                    recs_again = None
+                w.bump("oracle_checkpoint_reuse")
+                if recs_again is None or not np.array_equal(recs, recs_again, equal_nan=True):
+                    w.violate("split_equals_whole", f"continuing twice from the same returned states (segment [{a},{b})) gives different recordings"
+                              + (f" (max diff {simrun.maxdiff(recs, recs_again):.3e})" if recs_again is not None else " (second call raised)")
+                              + ": integrate modified the caller's all_states", nidx, {"checkpoint_reuse": True})
+                    ok = False
+                    break
             if recs.shape != (len(ref.recordings), b - a + 1):
                 w.violate("row_shape", f"segment [{a},{b}) returned shape {recs.shape}", nidx)
                 ok = False
